@@ -111,6 +111,35 @@ class CallMixin(object):
             self.inline(st, cls.methods["__init__"], None, [inst] + args, kwargs, node, module)
         return inst
 
+    def is_generator(self, func):
+        key = id(func.node)
+        cache = self.__dict__.setdefault("_gen_cache", {})
+        if key not in cache:
+            hit = False
+            stack = list(func.node.body)
+            while stack:
+                n = stack.pop()
+                if isinstance(n, (ast.FunctionDef, ast.Lambda, ast.ClassDef)):
+                    continue
+                if isinstance(n, (ast.Yield, ast.YieldFrom)):
+                    hit = True
+                    break
+                stack.extend(ast.iter_child_nodes(n))
+            cache[key] = hit
+        return cache[key]
+
+    def e_Yield(self, st, env, node, module):
+        e = env
+        while e is not None and not hasattr(st.heap[e.id], "gen_items"):
+            e = st.heap[e.id].parent
+        if e is None:
+            raise AnalysisError("E5.expr", "yield outside a modelled generator", node, module)
+        frame = st.heap[e.id]
+        v = self.eval(st, env, node.value) if node.value is not None else Const(None)
+        guard = mk_and(st.pc[frame.gen_pc0 :]) if len(st.pc) > frame.gen_pc0 else TRUE
+        frame.gen_items.append((guard, v))
+        return Const(None)
+
     def inline(self, st, func, closure, args, kwargs, node, module):
         model = self.models.get(func.node)
         if model is not None:
@@ -165,11 +194,22 @@ class CallMixin(object):
         self.inline_log.add(func.qualname)
         saved_func = self.current_func
         self.current_func = func
+        is_gen = self.is_generator(func)
+        if is_gen:
+            # a generator function: the values it yields, in order, as a one-shot sequence
+            env.gen_items = []
+            env.gen_pc0 = len(st.pc)
         try:
             outs = self.exec_block(func.node.body, st, e)
         finally:
             self.call_stack.pop()
             self.current_func = saved_func
+        if is_gen:
+            for o in outs:
+                if o.status == "return":
+                    o.value = None
+            if len(outs) != 1:
+                raise AnalysisError("E5.expr", "generator function with several exits", node, module)
         rets = []
         for o in outs:
             if o.status == "return":
@@ -192,8 +232,12 @@ class CallMixin(object):
                 mstate.constraints,
             )
         envo = st.heap.get(e.id)
+        if is_gen:
+            gen_list = ListObj(list(envo.gen_items))
         if envo is not None and not getattr(envo, "captured", False):
             del st.heap[e.id]  # frame is dead: nothing can reference it any more
+        if is_gen:
+            return self.alloc(st, gen_list)
         return mval
 
     # ------------------------------------------------------------------ builtins
@@ -296,26 +340,37 @@ class CallMixin(object):
             return self.alloc(st, ListObj(items))
         if name == "sorted":
             items = self.iter_values(st, args[0], node, module)
-            if kwargs:
-                raise AnalysisError("E5.call", "sorted() with key/reverse", node, module)
-
-            def skey(v):
-                if isinstance(v, Const):
-                    return v.v
-                if isinstance(v, TupleVal) and v.items and isinstance(v.items[0], Const):
-                    return v.items[0].v
-                raise AnalysisError("E5.call", "sorted() of symbolic values", node, module)
-
-            keys = [skey(v) for _, v in items]
-            if len(set(map(T.ckey, keys))) != len(keys):
-                raise AnalysisError("E5.call", "sorted() with duplicate sort keys", node, module)
-            try:
-                order = sorted(range(len(items)), key=lambda i: keys[i])
-            except TypeError:
-                self.event("mixed_sort", node, module, st)
-                raise AnalysisError("E5.call", "sorted() of mixed types", node, module)
-            lo = ListObj([items[i] for i in order])
+            lo = ListObj(self.sort_items(st, items, kwargs, node, module))
             return self.alloc(st, lo)
+        if name == "iter" and len(args) == 1:
+            items = self.iter_values(st, args[0], node, module)
+            lo = ListObj(list(items))
+            lo.one_shot = True
+            return self.alloc(st, lo)
+        if name == "next" and args and isinstance(args[0], Ref) and st.heap[args[0].id].kind == "list":
+            o = st.heap[args[0].id]
+            if o.items and all(isinstance(g, Const) and truth_const(g.v) for g, _ in o.items):
+                g, v = o.items.pop(0)
+                self.event("iterator_consumed", node, module, st, list=args[0].id)
+                return v
+            if not o.items:
+                if len(args) > 1:
+                    return args[1]
+                self.hazard(st, "StopIteration", node, module, TRUE, "next() on an exhausted iterator")
+                raise Dead()
+            # conditionally present elements: first present one, default / StopIteration when none
+            anyp = mk_or([g for g, _ in o.items])
+            out = args[1] if len(args) > 1 else None
+            if out is None:
+                self.hazard(st, "StopIteration", node, module, mk_not(anyp), "next() on a possibly empty iterator")
+                self.assume(st, anyp)
+                out = o.items[-1][1]
+                seq = o.items[:-1]
+            else:
+                seq = o.items
+            for g, v in reversed(seq):
+                out = self.mk_ite(st, g, v, out)
+            return out
         if name == "hash":
             x = args[0]
             if isinstance(x, TupleVal) and all(isinstance(i_, Term) for i_ in x.items):
@@ -329,6 +384,17 @@ class CallMixin(object):
                 return FALSE
             return App("isinstance", (x if isinstance(x, Term) else Opaque("obj"), Opaque(str(c))))
         if name == "type":
+            x = args[0]
+            if isinstance(x, Ref) and st.heap[x.id].kind == "map":
+                return ExtVal("collections.OrderedDict") if st.heap[x.id].ordered else Builtin("dict")
+            if isinstance(x, Ref) and st.heap[x.id].kind == "list":
+                return Builtin("list")
+            if isinstance(x, Const) and isinstance(x.v, dict):
+                return ExtVal("collections.OrderedDict") if getattr(x.v, "ordered", False) else Builtin("dict")
+            if isinstance(x, Const) and isinstance(x.v, list):
+                return Builtin("list")
+            if isinstance(x, TupleVal) or (isinstance(x, Const) and isinstance(x.v, tuple)):
+                return Builtin("tuple")
             return App("type", (args[0],)) if isinstance(args[0], Term) else Opaque("type")
         if name == "dict":
             return self.make_dict(st, args, kwargs, False, node, module)
@@ -798,7 +864,51 @@ class CallMixin(object):
                 return Const(None)
         raise AnalysisError("E5.call", "dict method %s" % name, node, module)
 
+    def sort_items(self, st, items, kwargs, node, module):
+        """sorted()/list.sort() on a list whose sort keys are constants."""
+        keyf = kwargs.get("key")
+        rev = kwargs.get("reverse")
+        if rev is not None and not isinstance(rev, Const):
+            raise AnalysisError("E5.call", "sorted() with symbolic reverse", node, module)
+        if set(kwargs) - {"key", "reverse"}:
+            raise AnalysisError("E5.call", "sorted() with %s" % sorted(kwargs), node, module)
+
+        def skey(v):
+            if keyf is not None and not (isinstance(keyf, Const) and keyf.v is None):
+                v = self.call(st, keyf, [v], {}, node, module)
+            if isinstance(v, Fin):
+                v = st.folder().restrict(v)
+            if isinstance(v, Const):
+                return v.v
+            if isinstance(v, TupleVal) and v.items and all(isinstance(x, Const) for x in v.items):
+                return tuple(x.v for x in v.items)
+            if isinstance(v, TupleVal) and v.items and isinstance(v.items[0], Const):
+                return (v.items[0].v,)
+            raise AnalysisError("E5.call", "sorting symbolic values", node, module)
+
+        keys = [skey(v) for _, v in items]
+        norm = [k if isinstance(k, tuple) else (k,) for k in keys]
+        firsts = [k[0] for k in norm]
+        if len(set(map(T.ckey, firsts))) != len(firsts) and any(len(k) == 1 for k in norm) and len(set(map(T.ckey, keys))) != len(keys):
+            raise AnalysisError("E5.call", "sorting with duplicate sort keys", node, module)
+        try:
+            order = sorted(range(len(items)), key=lambda i: norm[i])
+        except TypeError:
+            self.event("mixed_sort", node, module, st)
+            raise AnalysisError("E5.call", "sorting mixed types", node, module)
+        if rev is not None and truth_const(rev.v):
+            order = list(reversed(order))
+        return [items[i] for i in order]
+
     def list_method(self, st, ref, o, name, args, kwargs, node, module):
+        if name == "sort" and not args:
+            o.items[:] = self.sort_items(st, list(o.items), kwargs, node, module)
+            self.event("list_store", node, module, st, list=ref.id)
+            return Const(None)
+        if name == "reverse" and not args:
+            o.items.reverse()
+            self.event("list_store", node, module, st, list=ref.id)
+            return Const(None)
         if name in ("append", "add"):
             if self.havoc_depth > 0:
                 o.havoc = True
@@ -813,6 +923,16 @@ class CallMixin(object):
             return Const(None)
         if name == "copy":
             return self.alloc(st, o.copy())
+        if name in ("index", "count") and len(args) == 1 and isinstance(args[0], Const) and all(
+            isinstance(g, Const) and truth_const(g.v) and isinstance(v, Const) for g, v in o.items
+        ):
+            vals = [v.v for _, v in o.items]
+            if name == "count":
+                return Const(vals.count(args[0].v))
+            if args[0].v in vals:
+                return Const(vals.index(args[0].v))
+            self.hazard(st, "ValueError", node, module, TRUE, "list.index miss")
+            raise Dead()
         if o.kind == "set" and name in ("difference", "intersection", "union") and len(args) == 1:
             other = args[0]
             out = []
@@ -1151,6 +1271,13 @@ class StmtMixin(object):
 
     def s_Delete(self, s, st, env, module):
         for t in s.targets:
+            if isinstance(t, ast.Name):
+                st.heap[env.id].vars.pop(t.id, None)
+                continue
+            if isinstance(t, (ast.Tuple, ast.List)) and all(isinstance(x, ast.Name) for x in t.elts):
+                for x in t.elts:
+                    st.heap[env.id].vars.pop(x.id, None)
+                continue
             if isinstance(t, ast.Subscript):
                 base = self.eval(st, env, t.value)
                 idx = self.eval(st, env, t.slice)
@@ -1579,8 +1706,16 @@ class StmtMixin(object):
                 tm = self.repo.modules[s.module]
                 r = self.repo.resolve_global(tm, al.name)
                 if r and r[0] == "value":
-                    st.heap[env.id].vars[name] = Const(self.ce.eval(r[1], r[2], "E5.import"))
+                    dn = self.ce._defname(r[1], r[2])
+                    self.ce.consulted.add((r[1].name, dn))
+                    # through table(): computed tables are reified from the abstract module initialisation
+                    val = self.ce.table(r[1].name, dn, "E5.import") if dn else self.ce.eval(r[1], r[2], "E5.import")
+                    st.heap[env.id].vars[name] = Const(val)
                     continue
+            if s.level >= 1 and not s.module and al.name in self.repo.modules:
+                # from . import constants3 [as constants]
+                st.heap[env.id].vars[name] = ExtVal("cvss." + al.name)
+                continue
                 if r and r[0] == "func":
                     st.heap[env.id].vars[name] = FuncVal(r[1], None)
                     continue
